@@ -1354,6 +1354,45 @@ enum SG {
     /// raw glyph bytes (diagnostic witnesses only)
     Raw(Vec<u8>),
 }
+/// simple glyph, one contour of n on-curve points, flags written as REPEAT_FLAG runs (<= 256 points per run),
+/// x / y deltas of the given byte width (0 = "same" bit, 1 = short vector, 2 = 16-bit), `pad` zero bytes appended
+fn repeat_glyph(n: usize, xw: u8, yw: u8, pad: usize) -> Vec<u8> {
+    let mut b = vec![];
+    for x in [1i16, 0, 0, 2000, 2000] {
+        b.extend_from_slice(&x.to_be_bytes());
+    }
+    b.extend_from_slice(&((n - 1) as u16).to_be_bytes()); // endPts[0]
+    b.extend_from_slice(&0u16.to_be_bytes()); // instructionLength
+    let mut flag = 0x01u8;
+    flag |= match xw {
+        0 => 0x10,        // x same as previous
+        1 => 0x02 | 0x10, // short, positive
+        _ => 0,
+    };
+    flag |= match yw {
+        0 => 0x20,
+        1 => 0x04 | 0x20,
+        _ => 0,
+    };
+    let mut left = n;
+    while left > 0 {
+        let run = left.min(256);
+        b.extend_from_slice(&[flag | 0x08, (run - 1) as u8]);
+        left -= run;
+    }
+    for w in [xw, yw] {
+        for k in 0..n {
+            let d = (k % 5) as i16 + 1;
+            match w {
+                0 => {}
+                1 => b.push(d as u8),
+                _ => b.extend_from_slice(&d.to_be_bytes()),
+            }
+        }
+    }
+    b.extend(std::iter::repeat(0u8).take(pad));
+    b
+}
 #[derive(Clone, Debug)]
 struct Syn {
     glyphs: Vec<SG>,
@@ -2181,31 +2220,67 @@ fn main() {
         let name = format!("{}-{}", if bad { "syn-bad" } else { "syn" }, k);
         run_font(&name, &bytes, 6, 6, &mut st, &mut sh, &mut rng);
     }
-    // diagnostic only (C17_WITNESS_REPEAT=<n>): one simple glyph of n points written with ONE repeated flag and
-    // 16-bit x / y deltas; prints what the subsetter does with it and exits
-    if let Ok(n) = std::env::var("C17_WITNESS_REPEAT") {
-        let n: usize = n.parse().unwrap_or(64);
-        let mut b = vec![];
-        for x in [1i16, 0, 0, 1000, 1000] {
-            b.extend_from_slice(&x.to_be_bytes());
+    // 2b. repeated-flag family (regression family of finding 14, fixed by /repo 84fae1d): one simple glyph of n points
+    // written with REPEAT_FLAG runs, every combination of x / y coordinate byte widths {0,1,2}, with and without
+    // padding bytes inside the glyph's loca range and an extra glyph after it.  Oracle needs no key: no panic, the kept
+    // glyph reads back with exactly the source's points, and (shard case) the loca predicted from the harness's own
+    // trimmed length must be klippa's loca.
+    for n in [1usize, 2, 63, 64, 65, 127, 128, 200, 255, 256, 257, 300] {
+        for xw in 0..3u8 {
+            for yw in 0..3u8 {
+                for variant in 0..3u8 {
+                    let raw = repeat_glyph(n, xw, yw, if variant == 0 { 0 } else { 1 + (n + xw as usize) % 3 });
+                    let mut glyphs = vec![SG::Simple(0), SG::Raw(raw)];
+                    let mut long = vec![(500, 0), (600, 10)];
+                    if variant == 2 {
+                        glyphs.push(SG::Simple(1));
+                        long.push((700, 20));
+                    }
+                    let ng = glyphs.len() as u16;
+                    let s = Syn { glyphs, long, lsbs: vec![], cmap: vec![(0x41, 1)], maxp_glyphs: ng };
+                    let bytes = build_syn(&s);
+                    let name = format!("syn-repeat-n{}-x{}-y{}-v{}", n, xw, yw, variant);
+                    let Ok(font) = FontRef::new(&bytes) else { continue };
+                    let af = abstract_font(&font);
+                    let fi = sh.add_font(&af);
+                    let cx = OracleCtx { name: &name, af: &af, orig: &bytes };
+                    let flags = match (n + xw as usize + 2 * yw as usize) % 4 {
+                        0 => F_RETAIN_GIDS,
+                        1 => F_NO_HINTING,
+                        _ => 0,
+                    };
+                    let req = Req { gids: if variant == 2 { vec![1, 2] } else { vec![1] }, unis: vec![], flags, label: "repeat-family" };
+                    let res = run_subset(&bytes, &req);
+                    st.evaluations += 1;
+                    st.count("request.repeat-family");
+                    st.count(&format!("repeat-family.n{}", n));
+                    // points of the kept glyph, read through read-fonts on both sides (ids 0, 1 keep their ids here)
+                    let pts = |f: &FontRef| -> Option<(Vec<u16>, Vec<(i16, i16, bool)>)> {
+                        let (loca, glyf) = (f.loca(None).ok()?, f.glyf().ok()?);
+                        match loca.get_glyf(GlyphId::new(1), &glyf).ok()?? {
+                            Glyph::Simple(g) => Some((g.end_pts_of_contours().iter().map(|e| e.get()).collect(), g.points().map(|p| (p.x, p.y, p.on_curve)).collect())),
+                            _ => None,
+                        }
+                    };
+                    let src = pts(&font);
+                    let ok = match &res {
+                        Ok(b) => FontRef::new(b).ok().map(|f| pts(&f)) == Some(src.clone()) && src.as_ref().map(|p| p.1.len()) == Some(n),
+                        Err(_) => false,
+                    };
+                    if !ok {
+                        st.oracle_failure(json!({"key": format!("repeat-family:{}", name), "font": name, "flags": flags,
+                            "what": "simple glyph written with repeated flags: subset panicked or the kept glyph does not read back with the source's points",
+                            "detail": format!("{:?}", res.as_ref().map(|b| b.len()))}));
+                    }
+                    let obs = res.as_ref().ok().and_then(|b| observe(b));
+                    let lc = res.as_ref().map(|b| coq_obs_loca(&format!("font_{}", fi), b)).unwrap_or("None".into());
+                    sh.push(fi, &req, coq_obs(&res, &obs, af.f4_same, "[]", "None", &lc), af.n + 2);
+                    if variant == 0 && xw == yw {
+                        oracle(&cx, &req, &res, &mut st, &mut rng, false, 400);
+                    }
+                }
+            }
         }
-        b.extend_from_slice(&((n - 1) as u16).to_be_bytes()); // endPts[0]
-        b.extend_from_slice(&0u16.to_be_bytes()); // instructionLength
-        b.extend_from_slice(&[0x01 | 0x08, (n - 1) as u8]); // on-curve, repeat n-1 more times, 16-bit deltas
-        for k in 0..2 * n {
-            b.extend_from_slice(&(((k % 7) as i16) + 1).to_be_bytes());
-        }
-        let s = Syn { glyphs: vec![SG::Simple(0), SG::Raw(b.clone())], long: vec![(500, 0), (600, 0)], lsbs: vec![], cmap: vec![(0x41, 1)], maxp_glyphs: 2 };
-        let bytes = build_syn(&s);
-        let req = Req { gids: vec![1], unis: vec![], flags: 0, label: "witness" };
-        let res = run_subset(&bytes, &req);
-        eprintln!("WITNESS repeat n={} glyph_len={} result={:?}", n, b.len(), res.as_ref().map(|v| v.len()));
-        if let Ok(v) = &res {
-            let f = FontRef::new(v).unwrap();
-            let l = f.loca(None).unwrap();
-            eprintln!("WITNESS subset loca: {:?} {:?} {:?}; harness expects glyph length {:?}", l.get_raw(0), l.get_raw(1), l.get_raw(2), subset_glyph_lens(&FontRef::new(&bytes).unwrap(), 1));
-        }
-        std::process::exit(0);
     }
     // 3. F-7 witnesses: deep chain and wide tree
     for (name, s) in [("syn-chain-40", syn_chain(40)), ("syn-chain-64", syn_chain(64)), ("syn-chain-65", syn_chain(65)), ("syn-chain-66", syn_chain(66)), ("syn-chain-70", syn_chain(70)), ("syn-wide-40", syn_wide(40)), ("syn-wide-130", syn_wide(130))] {
